@@ -8,6 +8,8 @@ tests = '--tests' in sys.argv
 if not os.path.isdir(WT):
     subprocess.check_call(['git', '-C', '/repo', 'worktree', 'add', '-q', '--detach', WT])
 subprocess.check_call(['git', '-C', WT, 'checkout', '-q', '--', '.'])
+head = subprocess.check_output(['git', '-C', '/repo', 'rev-parse', 'HEAD'], text=True).strip()
+subprocess.check_call(['git', '-C', WT, 'checkout', '-q', '--detach', head])
 p = os.path.join(WT, path)
 s = open(p).read()
 if s.count(old) != 1:
